@@ -171,6 +171,23 @@ pub struct Jitter {
     state: parking_lot::Mutex<u64>,
 }
 
+/// How often a thread of raindb went to sleep on a condition variable, by kind of wait
+/// (room_imm, room_l0, writer_turn, manual, force_flush, close) - counted by the jitter
+/// controller; tells whether a run reached the write-stall conditions.
+pub static WAITS: parking_lot::Mutex<Vec<(&'static str, u64)>> = parking_lot::Mutex::new(Vec::new());
+
+pub fn take_waits() -> Vec<(&'static str, u64)> {
+    std::mem::take(&mut *WAITS.lock())
+}
+
+impl Jitter {
+    pub fn new(seed: u64) -> Jitter {
+        Jitter {
+            state: parking_lot::Mutex::new(0x9E3779B97F4A7C15 ^ seed.max(1)),
+        }
+    }
+}
+
 impl crate::trace::Controller for Jitter {
     fn sched_point(&self, _name: &'static str) {
         let p = JITTER_PERMILLE.load(Ordering::Relaxed);
@@ -191,7 +208,13 @@ impl crate::trace::Controller for Jitter {
             std::thread::sleep(Duration::from_micros((r >> 20) % 600));
         }
     }
-    fn about_to_wait(&self, _which: &'static str) {}
+    fn about_to_wait(&self, which: &'static str) {
+        let mut w = WAITS.lock();
+        match w.iter_mut().find(|(k, _)| *k == which) {
+            Some(e) => e.1 += 1,
+            None => w.push((which, 1)),
+        }
+    }
     fn woke(&self, _which: &'static str) {}
     fn bg_idle(&self) {}
 }
@@ -204,9 +227,7 @@ pub fn install_observer(root: &str, sink: &Arc<TraceSink>, contents: bool) {
             sink: Arc::clone(sink),
             want_contents: contents,
             ctl: if jitter > 0 {
-                Some(Arc::new(Jitter {
-                    state: parking_lot::Mutex::new(0x9E3779B97F4A7C15 ^ jitter),
-                }) as Arc<dyn crate::trace::Controller>)
+                Some(Arc::new(Jitter::new(jitter)) as Arc<dyn crate::trace::Controller>)
             } else {
                 None
             },
